@@ -37,4 +37,14 @@ CHECKS["C10"] = (
     "the non-time axis) and every grouping for <=3 (4 thorough) pieces along time and frequency; each generated case is "
     "replayed on the real classes at 1 mHz..2 GHz and must reproduce the original bit for bit or raise.",
     TB, "DESIGN.md §4 C10")
+CHECKS["C14"] = (
+    "TLA+ spec Alias.tla (buffers, views, per-operation write targets; action property Frame) model-checked by TLC; "
+    "TLC-generated operation sequences over shared inputs replayed on the real code with byte-wise buffer and metadata "
+    "hashes, validated event by event by Trace_Alias.tla",
+    "TLC checks Frame over all depth-3 sequences of 33 operations on shared inputs (a negative config with the pinned "
+    "in-place istft is rejected); every depth-2 behaviour and sampled depth-3 behaviours are executed on real signals "
+    "(contiguous and strided, complex/real, success and error paths, array/Quantity arguments) and TLC decides from the "
+    "recorded hashes whether any buffer other than the sanctioned out=/in-place target changed; in addition every "
+    "generated Pipeline and Concat behaviour snapshots all inputs before/after each call.",
+    TB, "DESIGN.md §4 C14")
 NA = {}
